@@ -7,6 +7,20 @@ from .common import *
 
 PROP, BIN, RUNMOD, RUNFN = "C20", "c20", "RunC20", "run_C20"
 MODES = [True, False]
+EXTRA_TRUSTED = [
+    "harness/src/bin/c20.rs Scripted RngCore: serves try_fill_bytes requests from the case's byte list left to right "
+    "(next_u32/next_u64/fill_bytes derived little-endian from the same bytes, as rand_core 0.6 impls do); bnum reaches the "
+    "generator only through try_fill_bytes (rand 0.8.8 src/rng.rs Fill impls for [u8]/[u16]/[u32]/[u64], read from source)",
+    "little-endian target: BUint::to_le / uN::to_le are the identity, a digit is the little-endian decoding of its bytes",
+]
+ASSUMPTIONS = [
+    "C20 theorems about ranges take as explicit premises (coq/Proofs/RandomDeps.v, closed Props, no axioms) the specs of "
+    "functions owned by other properties: widening_mul_spec (C02), wrapping_add_spec / wrapping_sub_spec / "
+    "I_overflowing_sub_spec (C01), rem_spec (C03), shl_spec (C05), leading_zeros_spec (C06), and for the total (no-panic) "
+    "forms also U_overflowing_sub_flag_spec / I_overflowing_sub_flag_spec (C01) and icmp_spec (C07); the pure-Z theorems "
+    "(accept_bij, accept_count, zone_ok_*), Standard / decode_le / fill_slice theorems, Add<Digit> and the fuel lemma "
+    "are unconditional",
+]
 
 SMALL = [(8, 1), (8, 2), (16, 1)]          # BITS <= 16: zone by `% range` in sample_single_inclusive
 RANGE_OPS = ["uniform_new_sample", "uniform_new_inclusive_sample", "sample_single", "sample_single_inclusive",
@@ -262,8 +276,9 @@ def gen(rng, tier):
         for sg in (False, True):
             for lowp, highp in all_ranges(8, sg):
                 out += sweep_lines("sweep_ssi", sg, 8, 1, lowp, highp, 256)
-        for lowp, highp in all_ranges(8, False):
-            out += sweep_lines("sweep_uni", False, 8, 1, lowp, highp, 256)
+        for sg in (False, True):
+            for lowp, highp in all_ranges(8, sg):
+                out += sweep_lines("sweep_uni", sg, 8, 1, lowp, highp, 256)
         sizes16 = [1, 2, 3, 5, 8, 9, 255, 256, 257, 21845, 21846, 32767, 32768, 32769, 40000, 43691, 65521, 65535, 65536]
         for (w, n) in ((16, 1), (8, 2)):
             M = 1 << 16
@@ -381,7 +396,7 @@ _RULE = ("Scripted RNG byte streams (never constant): k rejected boundary words 
          "short / exact / long scripts, len 0..7; k draws from one sampler; Add<Digit> carries. Exhaustive sub-runs: "
          "quick = every RNG word x ~150 ranges at (8,1) signed+unsigned for sample_single_inclusive and Uniform::sample, "
          "2 ranges x every word at 16 bits; thorough = EVERY word x EVERY (low,high) at (8,1) (32896 ranges unsigned, "
-         "32896 signed, + Uniform::sample unsigned), every word x boundary ranges at (16,1) and (8,2). Results carry the "
+         "32896 signed, for sample_single_inclusive and for Uniform::sample), every word x boundary ranges at (16,1) and (8,2). Results carry the "
          "number of script bytes left, so consumption granularity is compared too. Non-trivial = a word was rejected "
          "before the draw / Err / Panic / fills / sweeps.")
 
